@@ -172,7 +172,7 @@ Definition meta_wb (wb : lwb) : Meta.workbook Meta.xref :=
 
 (* records of the globals that are not sheets, names or the XTI table *)
 Inductive gitem : Type :=
-| GJunk (t : N) (b : bytes)                        (* any record the globals loop ignores *)
+| GJunk (t : N) (b : bytes)                        (* any record the globals loop ignores, CodePage *)
 | GXf (ifnt ifmt : N) (rest : bytes)               (* XF: font index, ifmt, the other 16 bytes *)
 | GFormat (ifmt : N) (wide : bool) (s : str).      (* FORMAT: ifmt, XLUnicodeString *)
 
@@ -188,7 +188,10 @@ Definition gi_formats (js : list gitem) : list (N * str) :=
   flat_map (fun g => match g with GFormat ifmt _ s => [(ifmt, s)] | _ => [] end) js.
 Definition gitem_ok (g : gitem) : bool :=
   match g with
-  | GJunk t _ => negb (Meta.xls_interpreted t)
+  (* a record the globals loop ignores, or a CodePage record (0x0042) of any value — Excel writes
+     1200, JExcelApi 1252, ...: BIFF8 text never goes through it; its length (at least two bytes)
+     is Meta.xjunk_ok's condition *)
+  | GJunk t _ => negb (Meta.xls_interpreted t) || (t =? 66)
   | GXf ifnt ifmt _ => (ifnt <? 65536) && (ifmt <? 65536)
   | GFormat ifmt wide s => (ifmt <? 65536) && forallb Meta.scalarb s && Meta.wide_ok wide s
   end.
